@@ -60,6 +60,9 @@ func VrfC10Repin() {
 	ctx, cancel := contextWithCancel()
 	c.ctx, c.cancel = ctx, cancel
 	cons.peers = append([]peer.ID{c.id}, vrfPeerNames[:n]...)
+	if vrf_param("trusted_others") == 1 {
+		cons.trustAll = true // the other members take part in the "who is closest" decision
+	}
 	c.config.DisableRepinning = vrf_nondet_bool("repinning_disabled")
 	// the stored pin
 	stored := vrfExistingPin(vrfCid(0), now, n)
@@ -117,6 +120,20 @@ func VrfC10Repin() {
 	}
 
 	active := !c.config.DisableRepinning && !c.config.FollowerMode && (viaRemoval || alertName == pingMetricName)
+	if vrf_param("trusted_others") == 1 && !viaRemoval {
+		// every member sees the alert: the one that acts is the survivor whose
+		// hash is closest to the CID - the failed peer itself does not count
+		var others []peer.ID
+		for _, p := range cons.peers {
+			if p != c.id && p != failed {
+				others = append(others, p)
+			}
+		}
+		dc := &distanceChecker{local: c.id, otherPeers: others, cache: map[peer.ID]distance{}}
+		closest := dc.isClosest(stored.Cid)
+		vrf_note_bool("self_is_closest_survivor", closest)
+		active = active && closest
+	}
 	for _, e := range cons.log {
 		vrf_assert(!e.unpin, "C10.repin.never-unpins")
 		vrf_assert(e.pin.Cid.Equals(stored.Cid), "C10.repin.only-pins-of-the-failed-peer")
